@@ -124,8 +124,16 @@ def make_target(tree, form, odb, second_fs=False, empty_dirs=()):
     return idx
 
 
+DIR_DAMAGE = ["missing", "no-relpath", "not-json", "not-a-list", "storage-raises"]
+
+
+class _StorageError(Exception):
+    """What a remote file system may raise on its own (an authentication / quota error): not an OSError."""
+
+
 def one_exec(prior, target, form, delete, link, missing=(), missing_dir=None, hashless=False, handler="default",
-             second_fs=False, dangling=(), old_by="md5", empty_dirs=()):
+             second_fs=False, dangling=(), old_by="md5", empty_dirs=(), dir_damage="missing", retry=False,
+             unknown=()):
     from dvc_data.index import build as ibuild
     from dvc_data.index import md5 as imd5
     from dvc_data.index.checkout import apply, compare
@@ -141,7 +149,20 @@ def one_exec(prior, target, form, delete, link, missing=(), missing_dir=None, ha
             pth = os.path.join(ws, *rel.split("/"))
             os.makedirs(os.path.dirname(pth), exist_ok=True)
             os.symlink(w.p("nowhere", rel.replace("/", "_")), pth)
-        odb = make_odb("local", w.p("cache"), type=[link])
+        ofs = None
+        if missing_dir and dir_damage == "storage-raises":
+            from ..lab import RmFaultFS
+
+            class _FS(RmFaultFS):
+                broken = None
+
+                def open(self, path, *a, **kw):
+                    if self.broken and path == self.broken:
+                        raise _StorageError("injected: storage refuses to serve " + path)
+                    return super().open(path, *a, **kw)
+
+            ofs = _FS()
+        odb = make_odb("local", w.p("cache"), type=[link], **({"fs": ofs} if ofs else {}))
         fill_cache(odb, missing, big=any(c == "c3" for c, _e in list(prior.values()) + list(target.values())))
         tgt = make_target(target, form, odb, second_fs, empty_dirs)
 
@@ -159,9 +180,29 @@ def one_exec(prior, target, form, delete, link, missing=(), missing_dir=None, ha
         if missing_dir:
             # the directory object of this (lazily loaded) top-level directory is not in storage
             ent = tgt[(missing_dir,)]
-            os.unlink(odb.oid_to_path(ent.hash_info.value))
+            dpath = odb.oid_to_path(ent.hash_info.value)
+            dbytes = open(dpath, "rb").read()
+            os.chmod(dpath, 0o644)
+            if dir_damage == "missing":
+                os.unlink(dpath)
+            elif dir_damage == "storage-raises":
+                ofs.broken = dpath
+            else:
+                # the object is there but is not a directory listing: an item without its path, bytes that are
+                # not JSON, JSON that is not a list
+                import json as _json
+
+                items = _json.loads(dbytes)
+                bad = {"no-relpath": _json.dumps([{k: v for k, v in items[0].items() if k != "relpath"}] + items[1:]).encode(),
+                       "not-json": b"\x00\xffnot json at all", "not-a-list": b'{"relpath": "x", "md5": "y"}'}[dir_damage]
+                with open(dpath, "wb") as fh:
+                    fh.write(bad)
         # the first compare may be given a workspace index without content hashes
         old = ws_index()
+        for rel in unknown:
+            # a file the workspace index does not know about (ignored by the application's filter, or created
+            # after the index was built) in a directory that is to go
+            write_file(os.path.join(ws, *rel.split("/")), b"unknown to the index")
         before_l = {rel: os.lstat(os.path.join(ws, *rel.split("/"))).st_ino for rel in prior}
         errors = []
         told = []
@@ -197,7 +238,26 @@ def one_exec(prior, target, form, delete, link, missing=(), missing_dir=None, ha
             for rel in want:
                 if not rel.startswith(missing_dir + "/") and delete and got.get(rel) != want[rel]:
                     viol.append(("available-entry-not-created-when-a-directory-is-unloadable", rel))
-            return viol, info
+            if not retry or viol:
+                return viol, info
+            # recovery: the directory object is back in storage and the same calls are repeated with the SAME
+            # target index object; from here on the run is judged like any other
+            if ofs is not None:
+                ofs.broken = None
+            else:
+                with open(dpath, "wb") as fh:
+                    fh.write(dbytes)
+                os.chmod(dpath, 0o444)
+            errors.clear()
+            try:
+                apply(compare(ws_index(), tgt, delete=delete), ws, LFS, storage="cache",
+                      onerror=lambda *a: errors.append(a))
+            except Exception as e:  # noqa: BLE001
+                viol.append((f"checkout-raises-{type(e).__name__}", f"on the retry: {e!r}"))
+                return viol, info
+            info["retried"] = 1
+            got = walk_files(ws)
+            gotd = walk_dirs(ws)
         if missing:
             # entries whose source is unavailable are reported, not silently skipped
             reported = {os.path.relpath(a[1], ws).replace(os.sep, "/") for a in errors if len(a) > 1 and a[1]}
@@ -210,6 +270,14 @@ def one_exec(prior, target, form, delete, link, missing=(), missing_dir=None, ha
                 if form == "explicit" and got.get(rel) != want[rel] and delete:
                     viol.append(("available-entry-not-created-when-another-is-unavailable", rel))
             return viol, info
+        if unknown:
+            keep = set()
+            for rel in unknown:
+                if got.pop(rel, None) != b"unknown to the index":
+                    viol.append(("file-unknown-to-the-index-removed", rel))
+                parts = rel.split("/")
+                keep |= {"/".join(parts[:i]) for i in range(1, len(parts))}
+            gotd = gotd - (keep - dirs_of(target))
         if delete:
             if got != want:
                 lost = sorted(set(want) - set(got))
@@ -231,6 +299,8 @@ def one_exec(prior, target, form, delete, link, missing=(), missing_dir=None, ha
                     continue  # a directory object carries no exec bit
                 if ex and os.path.isfile(p) and not os.stat(p).st_mode & stat.S_IXUSR:
                     viol.append(("executable-entry-not-executable", rel))
+            if unknown:
+                return viol, info   # (the workspace index of a second compare would know the file)
             # second compare: nothing left to create or delete
             tgt2 = make_target(target, form, odb, second_fs, empty_dirs)
             if old_by == "build_entries":
@@ -336,6 +406,23 @@ def run_case(case):
                 viol, info = one_exec(prior, target, "lazy", delete, "copy", missing_dir=top)
                 viol2, info2 = one_exec(prior, target, "lazy", delete, "copy", missing_dir=top, handler="collect")
                 viol = list(viol) + [(s_ + "/collecting-handler", d_) for s_, d_ in viol2]
+                # the other ways a directory object can be unavailable; and the retry once it is back
+                for dmg in DIR_DAMAGE:
+                    for hd in ("default", "collect"):
+                        if dmg != "missing":
+                            v3, _i3 = one_exec(prior, target, "lazy", delete, "copy", missing_dir=top, handler=hd,
+                                               dir_damage=dmg)
+                            viol += [(f"{s_}/{dmg}" + ("/collecting-handler" if hd == "collect" else ""), d_)
+                                     for s_, d_ in v3]
+                            res["n"] += 1
+                            res["vac"]["damaged_dir_object_runs"] = res["vac"].get("damaged_dir_object_runs", 0) + 1
+                        v4, i4 = one_exec(prior, target, "lazy", delete, "copy", missing_dir=top, handler=hd,
+                                          dir_damage=dmg, retry=True)
+                        viol += [(f"{s_}/retry-after-{dmg}" + ("/collecting-handler" if hd == "collect" else ""), d_)
+                                 for s_, d_ in v4]
+                        res["n"] += 1
+                        res["vac"]["retries_after_unloadable_dir"] = res["vac"].get("retries_after_unloadable_dir", 0) \
+                            + i4.get("retried", 0)
                 if info.get("snap") is not None and info2.get("snap") is not None and info["snap"] != info2["snap"]:
                     viol.append(("unloadable-directory-outcome-depends-on-the-load-error-handler",
                                  f"{top}: default {info['snap'][1]} vs collecting {info2['snap'][1]}"))
@@ -347,7 +434,7 @@ def run_case(case):
                         sigs.add(sig)
                         res["viol"].append((sig, detail, {"prior": prior, "target": target, "form": "lazy",
                                                           "delete": delete, "link": "copy", "missing": [],
-                                                          "missing_dir": top}))
+                                                          "missing_dir": top, "sig": sig}))
     # special shapes, once (with the first prior): a second cache on another file system, dangling links in the
     # prior workspace, a workspace index computed by build_entries() with a file above the large-file threshold
     if case["i"] == 0:
@@ -376,6 +463,14 @@ def run_case(case):
             specials.append((pr, {"d/back\\slash": ("c1", False), "d/back/slash": ("c2", False)}, dict(form="lazy"), True))
             specials.append((pr, {"a": ("c1", False)}, dict(form="lazy", empty_dirs=["z0"]), True))
             specials.append((pr, {"a": ("c1", False)}, dict(empty_dirs=["z0"]), True))
+        # a file the workspace index does not know about sits in one of several directories that are to go
+        for pr in ({"d/s/y": ("c1", False), "a/z": ("c2", False), "e/f/g": ("c1", False)},
+                   {"d/s/y": ("c1", False), "d/x": ("c2", False), "a/z": ("c2", False)}):
+            for unk in (["d/s/ignored"], ["d/ignored"], ["a/ignored"], ["e/f/ignored"], ["d/s/ignored", "a/ignored"]):
+                if not all(u.split("/")[0] in {r.split("/")[0] for r in pr} for u in unk):
+                    continue
+                for tgt in ({}, {"k": ("c1", False)}, {"a/z": ("c2", False)}):
+                    specials.append((pr, tgt, dict(unknown=unk), True))
         for pr, tgt, kw, delete in specials:
             kw = dict(kw)
             form_ = kw.pop("form", "explicit")
@@ -385,7 +480,10 @@ def run_case(case):
             res["trans"] += 4
             res["vac"]["special_shape_runs"] = res["vac"].get("special_shape_runs", 0) + 1
             tag = "second-fs" if kw.get("second_fs") else ("dangling-link" if kw.get("dangling") else
-                                                           "build_entries" if kw.get("old_by") else "special-names")
+                                                           "build_entries" if kw.get("old_by") else
+                                                           "file-unknown-to-the-index" if kw.get("unknown") else "special-names")
+            if kw.get("unknown"):
+                res["vac"]["unknown_file_runs"] = res["vac"].get("unknown_file_runs", 0) + 1
             for sig, detail in viol:
                 sig = f"{sig}/{tag}"
                 if sig not in sigs:
@@ -406,6 +504,18 @@ def replay(case):
         sp = dict(case["special"])
         v = one_exec(fix(case["prior"]), fix(case["target"]), sp.pop("form", "explicit"), case["delete"], "copy", **sp)[0]
         return [(f"{s_}/{case['tag']}", d_) for s_, d_ in v]
+    if case.get("missing_dir") and "/" in case.get("sig", "") and any(
+            seg in DIR_DAMAGE or seg.startswith("retry-after-") for seg in case["sig"].split("/")):
+        segs = case["sig"].split("/")
+        hd = "collect" if segs[-1] == "collecting-handler" else "default"
+        if hd == "collect":
+            segs = segs[:-1]
+        retry = segs[-1].startswith("retry-after-")
+        dmg = segs[-1][len("retry-after-"):] if retry else segs[-1]
+        v = one_exec(fix(case["prior"]), fix(case["target"]), "lazy", case["delete"], "copy",
+                     missing_dir=case["missing_dir"], handler=hd, dir_damage=dmg, retry=retry)[0]
+        suffix = "/" + "/".join(case["sig"].split("/")[-(2 if hd == "collect" else 1):])
+        return [(s_ + suffix, d_) for s_, d_ in v]
     if case.get("missing_dir"):
         a = (fix(case["prior"]), fix(case["target"]), "lazy", case["delete"], "copy")
         v1, i1 = one_exec(*a, missing_dir=case["missing_dir"])
@@ -430,7 +540,7 @@ def run(ctx):
         f"E2 depth 1-2: every pair of {len(priors)} prior workspaces x {len(targets)} targets over paths "
         "{a, a/z, d, d/x, d/s, d/s/y} (file<->directory kind changes at depth 1 and 2, two contents, exec bit) x "
         "target form {explicit entries, lazily loaded directory objects, file entries only (implicit parents; delete on, copy)} x delete on/off x link type; real "
-        "build+md5+compare+apply, workspace walk, second compare; plus targets with an unavailable source object and lazy targets whose directory object is not in storage (workspace with / without that directory; default raising and application-installed collecting load-error handler on the index, same outcome demanded); "
+        "build+md5+compare+apply, workspace walk, second compare; plus targets with an unavailable source object and lazy targets whose directory object is not in storage (workspace with / without that directory; default raising and application-installed collecting load-error handler on the index, same outcome demanded; also directory objects that are present but damaged - an item without its path, not JSON, not a list - or whose storage raises a non-OSError, and the retry of the same calls on the same index object once the object is back), a file the workspace index does not know about in one of several directories that are to go; "
         "non-trivial = non-empty, different prior and target"
     )
     ctx.bound = {"priors": len(priors), "targets": len(targets),
@@ -442,7 +552,8 @@ def run(ctx):
         "(the property demands that executable entries become executable, not that the exec bit is ever cleared)",
         "without delete only files that are neither target paths nor in the way of a target path must survive",
     ]
-    ctx.require("kind_changes", "nested_kind_changes", "exec_targets", "unavailable_runs", "unloadable_dir_runs", "special_shape_runs", "files_only_targets")
+    ctx.require("kind_changes", "nested_kind_changes", "exec_targets", "unavailable_runs", "unloadable_dir_runs", "special_shape_runs", "files_only_targets",
+                "damaged_dir_object_runs", "retries_after_unloadable_dir", "unknown_file_runs")
     cs = []
     for i in range(len(priors)):
         links = ["copy"]
